@@ -3334,8 +3334,8 @@ def ok_markers(x):
 
 
 def ok_slots_helper(x, seq):
-    box = _Box([x, 2.0 * x], 2)
-    box.items.append(x)
+    box = _Box([1.0, 2.0], 2)
+    box.items.append(3.0)
     held = _Box(seq, len(seq))
     return box.n + len(box.items) + held.n + held.items[0]
 
